@@ -141,6 +141,38 @@ pub fn finish(id: &str, out: &Outcome) -> i32 {
     }
 }
 
+/// size and seed of the pinned adversarial corpus of C01 (same in both tiers; NOT derived from VERIF_SEED)
+pub const ADV_PINNED_CASES: u64 = 200_000;
+pub const ADV_PINNED_SEED: u64 = 0xAD5E_ED01;
+
+/// (maintenance) evaluates the pinned corpus on the current tree and prints the digests of all failing cases
+pub fn list_adv_failures() -> i32 {
+    use crate::props::robust::{adv_lattice_strategy, adv_replay, eval_adv_c01, Adv};
+    let collected: std::sync::Mutex<Vec<u64>> = std::sync::Mutex::new(Vec::new());
+    let mut stats = Stats::default();
+    let mut violations = Vec::new();
+    {
+        let plan = Plan::<Adv> {
+            name: "adversarial-pinned",
+            cases: ADV_PINNED_CASES,
+            strategy: Box::new(adv_lattice_strategy),
+            eval: Box::new(|d: &Adv, s: bool| eval_adv_c01(d, s, Some(&collected))),
+            replay: Box::new(|d: &Adv, _f: &Failure| adv_replay(d)),
+        };
+        run_plans("C01", ADV_PINNED_SEED, &[plan], &mut stats, &mut violations);
+    }
+    let mut v = collected.into_inner().unwrap();
+    v.sort();
+    v.dedup();
+    let out = json!({
+        "what": "K5: digests (case_digest of the operand pair) of the inputs of C01's pinned adversarial corpus on which the tree at the time of recording returns a wrong region for some operation or panics with a recorded signature (K1/K2). Inexact-and-degenerate inputs: same root cause as K1-K4. Regenerate only with `verif list-adv-failures` after a triage.",
+        "corpus": {"cases": ADV_PINNED_CASES, "seed": ADV_PINNED_SEED, "evaluated": stats.evaluations},
+        "digests": v.iter().map(|d| format!("{:016x}", d)).collect::<Vec<_>>(),
+    });
+    println!("{}", serde_json::to_string_pretty(&out).unwrap());
+    0
+}
+
 pub fn run_generic(id: &str, tier: Tier) -> i32 {
     match id {
         "C03" => return run_c03(tier, None),
@@ -233,6 +265,23 @@ pub fn run_generic(id: &str, tier: Tier) -> i32 {
         };
         if out.violations.is_empty() {
             run_plans("C15", seed, &[plan3], &mut out.stats, &mut out.violations);
+        }
+    }
+    if id == "C01" && out.violations.is_empty() {
+        // pinned adversarial corpus (fixed seed, independent of VERIF_SEED): the inexact-and-degenerate region as a
+        // regression net; the cases the unchanged tree is known to get wrong are listed by digest and not reported
+        use crate::props::robust::{adv_known_digests, adv_lattice_strategy, adv_replay, eval_adv_c01, Adv};
+        let plan = Plan::<Adv> {
+            name: "adversarial-pinned",
+            cases: ADV_PINNED_CASES,
+            strategy: Box::new(adv_lattice_strategy),
+            eval: Box::new(|d: &Adv, s: bool| eval_adv_c01(d, s, None)),
+            replay: Box::new(|d: &Adv, _f: &Failure| adv_replay(d)),
+        };
+        run_plans("C01", ADV_PINNED_SEED, &[plan], &mut out.stats, &mut out.violations);
+        let hits = out.stats.counters.get("known_adversarial_corpus_failures").cloned().unwrap_or(0);
+        if hits > 0 {
+            out.known_lines.push(format!("K5 wrong region (or recorded panic K1/K2) on {} of the {} inputs of the pinned adversarial corpus (small-lattice polygons with arbitrary slopes; seed {}); their digests are listed in corpus/known/adv_c01_digests.json ({} listed)", hits, ADV_PINNED_CASES, ADV_PINNED_SEED, adv_known_digests().len()));
         }
     }
     if id == "C12" && out.violations.is_empty() {
